@@ -6,6 +6,7 @@ import (
 	"net/http"
 	"reflect"
 	"runtime"
+	"strings"
 
 	connect "github.com/bufbuild/connect-go"
 
@@ -120,6 +121,9 @@ func checkC19(w *World, st core.Status, r *RunResult) []Violation {
 			vs = append(vs, Violation{Class: "C19/" + class + "/" + tag, Msg: p.ID + ": " + msg})
 		}
 		ex := o.Call.Exchange()
+		if why := interceptorPositions(w, o); why != "" {
+			add("recover-position", why)
+		}
 		if p.HPanic == nil {
 			// control: calls that do not panic are unaffected
 			if len(o.Recovered) != 0 {
@@ -205,4 +209,43 @@ func checkC19(w *World, st core.Status, r *RunResult) []Violation {
 		}
 	}
 	return vs
+}
+
+// interceptorPositions checks "the position of the recover interceptor among
+// other interceptors": the interceptors configured before WithRecover sit
+// outside it and see a panicking call return (the recovery function's
+// error), the ones configured after it sit inside and see the panic unwind
+// through them - all of them when the panic is net/http's abort sentinel,
+// which is re-raised untouched, none of them when the call does not panic.
+// (The order of the other interceptors among themselves is not C19's
+// business and is not compared.)
+func interceptorPositions(w *World, o *CallObs) string {
+	p := o.Plan
+	h := w.Sc.Handlers[p.Handler]
+	if p.Raw != nil || o.H.Entered == 0 || h.NIntercept == 0 {
+		return ""
+	}
+	pos := h.RecoverPos
+	if !h.Recover || pos > h.NIntercept {
+		pos = h.NIntercept
+	}
+	seen := map[string]int{}
+	for _, e := range o.InterceptLog {
+		seen[e]++
+	}
+	var bad []string
+	for i := 0; i < h.NIntercept; i++ {
+		want := "out"
+		if o.H.Panicked && (p.HPanic != nil && p.HPanic.Kind == 4 || !h.Recover || i >= pos) {
+			want = "panic"
+		}
+		other := map[string]string{"out": "panic", "panic": "out"}[want]
+		if seen[fmt.Sprintf("i%d:in", i)] != 1 || seen[fmt.Sprintf("i%d:%s", i, want)] != 1 || seen[fmt.Sprintf("i%d:%s", i, other)] != 0 {
+			bad = append(bad, fmt.Sprintf("i%d should see :%s", i, want))
+		}
+	}
+	if len(bad) > 0 {
+		return fmt.Sprintf("%d interceptors, WithRecover configured at position %d, handler panicked: %v: %s; they saw [%s]", h.NIntercept, pos, o.H.Panicked, strings.Join(bad, ", "), strings.Join(o.InterceptLog, " "))
+	}
+	return ""
 }
